@@ -18,7 +18,7 @@ CHECKS = {
             "Seeded exploration: the statement's geometry invariants are evaluated through the public API after every feed_str / feed(char) / resize of PRNG-scheduled chaos sessions (resizes while the alternate screen shows, mid-sequence, with wrap pending; damaged streams; all sizes and limits).",
             "trusts: TextUnwrapper::push as the reader of the soft-wrap mark; 'col == cols only by printing' is checked as a necessary condition via the lock-step parser's function stream", "§5 C02"),
     "C03": ("deterministic simulation at parser level: lock-step of the real parser with a table-driven reference parser over seeded sequence streams with truncation faults and resynchronisation; plus an enumerated single-step table (all scalars x 14 states x backgrounds)",
-            "Refinement against the small executable reference parser (an oracle kind of this family): seeded streams of complete, truncated and damaged sequences (truncation followed by CAN/SUB/ESC/C1/ST/BEL/nothing, then intact tokens - bounded recovery, no stale-parameter leakage) are compared state by state and function by function; the single-step table over every scalar value is enumerated and reported separately as such.",
+            "Refinement against the small executable reference parser (an oracle kind of this family): seeded streams of complete, truncated and damaged sequences (truncation followed by CAN/SUB/ESC/C1/ST/BEL/nothing, then intact tokens - bounded recovery, no stale-parameter leakage) are compared state by state and function by function; the single-step table over every scalar value is enumerated and reported separately as such; an end-to-end twin compares a Vt fed the stream in pieces with a Vt fed the canonical rendering of the reference parser's functions.",
             "trusts: RefParser (Williams' table + the four stated deviations), parameters rebuilt per sequence; colour components > 255 outside the statement; the schedule dimension of this content property is truncation/resynchronisation only", "§5 C03"),
     "C04": ("deterministic simulation: refinement of every Print/Rep step against the reference terminal model, in states produced by seeded sessions with resizes injected at any instant",
             "Refinement against the reference model: one character per call, full observation after each; every Print/Rep post-state (cells, pens, marks, scrollback, cursor, frame) must equal step(observed pre-state + hidden model state, f). The simulator contributes the states only an environment event creates (wrap pending across a width change, region reset/kept by resizes, 1-column screens); it is a content property otherwise.",
@@ -42,14 +42,14 @@ CHECKS = {
             "Seeded exploration of widths (biased to multiples of 8 +-1), set/clear operations at all columns and resize chains: HT/CBT/CHT n/CBT n sweeps on forks must visit exactly the stops of the set model, and a never-customised terminal must tab like a fresh one of the current width.",
             "trusts: tracker tab-stop set (defaults, narrowing drops, widening adds multiples of 8 in [old,new))", "§5 C18"),
     "C09": ("deterministic simulation: configuration/chunking twins of a text session (S6 swarm + S1), text oracle from the input",
-            "Seeded exploration of (text, geometry, chunking) triples: the same text is fed under two geometries and an arbitrary chunking; text() and TextUnwrapper(lines()) are compared with the input lines and across geometries. A content property: the simulator contributes the configurations and cut points, the deciding oracle is the twin comparison.",
+            "Seeded exploration of (text, geometry, chunking) triples: the same text is fed under two geometries and an arbitrary chunking, and additionally resized from the first geometry to the second after the text and between two of its lines; text() and TextUnwrapper(lines()) are compared with the input lines and across geometries; 1 in 60 runs scrolls 300-5000 lines. A content property: the simulator contributes the configurations and cut points, the deciding oracle is the twin comparison.",
             "trusts: the reference 'input split at CR LF, right-trimmed'; white space other than U+0020 and DEL are not generated", "§5 C09"),
     "C10": ("deterministic simulation with fault injection: resize events injected at scheduler-chosen instants (mid-sequence, wrap pending) into primary-screen histories; logical-line relation checked across every resize",
             "Seeded exploration of resize timing: arbitrary primary-screen histories with resizes landing between any two characters and chains of resizes between any sizes >= 1x1; the relation the statement gives between the logical views before and after is evaluated at every resize, plus geometry.",
             "trusts: logical lines reconstructed from lines() + TextUnwrapper wrap marks; 'same character' only judged when the cursor was on a cell of the trimmed line", "§5 C10"),
     "C12": ("deterministic simulation: twin executions of one string under PRNG-chosen chunkings (feed_str pieces cut anywhere, feed() loops) versus one feed_str",
-            "Seeded exploration of cut sets: after a shared prefix history the same string is delivered as scheduler-chosen pieces (cuts inside sequences and parameters, feed(char) loops, mixtures) and as one feed_str; view, cursor, modes (dump) and, when unlimited, lines() must agree.",
-            "trusts: dump() equality of two instances of the same build as the observer of modes; lines() not compared under a limit (C14 covers the stream); known finding F6 matched by state predicate", "§5 C12"),
+            "Seeded exploration of cut sets: after a shared prefix history the same string is delivered as scheduler-chosen pieces (cuts inside sequences and parameters, feed(char) loops, mixtures) and as one feed_str; view, cursor, modes (dump) and, when unlimited, lines() must agree, and must keep agreeing through a shared continuation of further input and resizes.",
+            "trusts: dump() equality of two instances of the same build as the observer of modes; lines() not compared under a limit (C14 covers the stream); a shared continuation after the twins agreed (resizes only with unlimited scrollback); finding F6 (feed() never trimmed the alternate screen) was reported by this check and is fixed in /repo ce521c3", "§5 C12"),
     "C13": ("deterministic simulation with fault injection: scroll-heavy sessions with resizes, every limit, consumer cancellation (drop / partial drain); bound invariant after every call",
             "Seeded exploration: the retention bound is evaluated after every feed_str / resize of scroll-heavy sessions under every limit class, with the consumer draining all, some or none of Changes.scrollback, narrowing resizes and alternate-screen excursions.",
             "trusts: alternate-screen flag derived from the lock-step parser's DECSET/DECRST/RIS functions", "§5 C13"),
@@ -60,7 +60,7 @@ CHECKS = {
             "Seeded exploration: around every feed_str / resize window of chaos sessions (cuts define the windows; feed(char) calls accumulate) the visible rows are diffed cell by cell and every changed or new row must be in Changes.lines.",
             "trusts: cell comparison through Line::cells(); a wrap-mark-only change is not a cell change", "§5 C15"),
     "C19": ("deterministic simulation with fault injection: reset-recovery twin - chaos history (truncated sequences, damage, resizes), ESC c, continuation, compared step by step with a fresh terminal",
-            "Seeded exploration: from histories that leave the parser and terminal in arbitrary states (partial tokens, alternate screen, modes, tabs, margins, charsets, saved contexts, resizes), ESC c is delivered under different cuts and the terminal is compared with a fresh one immediately and after every continuation event.",
+            "Seeded exploration: from histories that leave the parser and terminal in arbitrary states (partial tokens, alternate screen, modes, tabs, margins, charsets, saved contexts, resizes), ESC c is delivered under different cuts and the terminal is compared with a fresh one (view, lines, cursor, cursor-key mode, text, dump, changed-line reports) immediately and after every continuation event.",
             "trusts: RefParser to locate the RIS; fresh = builder with current size and configured limit", "§5 C19"),
     "C20": ("deterministic simulation: inert items delivered under PRNG-chosen cuts inside the item after an arbitrary prior history; before/after twin of the same instance plus per-call change reports",
             "Seeded exploration: control strings, unimplemented CSI/ESC sequences and unassigned C0/C1 are delivered in pieces cut anywhere; screen, lines, cursor, modes (dump) must be unchanged, no call may report a changed line, nothing may be dispatched and the parser must be back in Ground. A content property whose per-call / cut aspect is the simulated part.",
